@@ -15,7 +15,7 @@ THRESHOLDS = {
     "solve_returns": 0.5,            # boolean: the process survived factorisation and all solves (no library exit())
     "csr_roundtrip": 0.5,            # boolean: the container returns exactly the entries it was constructed from
 }
-MIN_NONTRIVIAL = {"quick": 300, "thorough": 2000}
+MIN_NONTRIVIAL = {"quick": 4000, "thorough": 10000}
 RULE = ("cases drawn from VERIF_SEED: n in {1, 2, 3-8, 9-30, 31-80, 81-200, 380-440}; pattern in {diagonal, random density, banded, "
         "arrow, block, cyclic, triangular, product of sparse L*U (real / dyadic with exactly-zero diagonal entries), PDE "
         "matrix assembled by the direct solver or smoother (give/take) on a generated grid}; strictly row- or "
